@@ -5,7 +5,8 @@
  *   drive_cpp replay <ops_in> <impl_out>
  *
  * ops:  xs <tree>            build the tree with put() in the given order, serialize()
- *       xr<k> <tree>         serialize, deserialize with overload k (1 vector, 2 ptr+size, 3 parser*), serialize again
+ *       xr<k> <tree>         serialize, deserialize with overload k (1 vector, 2 ptr+size, 3 parser*, 4 parser* in mid-traversal,
+ *                            5 parser* with its error flag set), serialize again
  *       xd<k> <fill> <hex>   deserialize arbitrary bytes with overload k after poisoning the stack with <fill>,
  *                            then serialize the result
  * tree: { k<hex> <v> ... }  [ <v> ... ]  t f i<dec> d<bits> s<hex> y<hex>
@@ -91,6 +92,8 @@ static void do_deserialize(Binson &b, int k, const std::string &bytes, int fill)
         binson_parser *p = (binson_parser *)malloc(sizeof(binson_parser)); memset(p, fill, sizeof *p);
         p->state = st; p->max_depth = 10;
         bool ok = binson_parser_init(p, ex, bytes.size());
+        if (ok && k == 4) { binson_parser_go_into_object(p); binson_parser_next(p); binson_parser_next(p); }   /* a parser that is in the middle of a traversal */
+        if (ok && k == 5) { (void)binson_parser_get_name(p); }                                                  /* a parser whose error flag is set (STATE) */
         try { if (!ok) throw std::runtime_error("Parser init error"); b.deserialize(p); } catch (...) { free(ex); free(st); free(p); throw; }
         free(ex); free(st); free(p);
     }
@@ -179,7 +182,7 @@ int main(int argc, char **argv) {
             if (chance(6)) tree = gen_deep(8 + (int)rn(5));      /* object nesting 8..12 (root counts) */
             else tree = gen_object(1, budget, chance(10) ? 12 : 8);
             emit("xs " + tree);
-            char op[8]; snprintf(op, sizeof op, "xr%d", 1 + (int)rn(3)); emit(std::string(op) + " " + tree);
+            char op[8]; snprintf(op, sizeof op, "xr%d", 1 + (int)rn(5)); emit(std::string(op) + " " + tree);
         }
         fclose(fops); fclose(fout); return 0;
     }
